@@ -183,7 +183,7 @@ type eigenCase struct {
 func drawEigen(t *rapid.T) eigenCase {
 	return eigenCase{
 		N:     dimN(t, "n", 1),
-		Class: rapid.SampledFrom([]string{"general", "general", "sym", "rot", "tri", "similar"}).Draw(t, "class"),
+		Class: rapid.SampledFrom([]string{"general", "general", "sym", "rot", "rot-repeated", "near-identity", "tri", "similar"}).Draw(t, "class"),
 		Kind:  rapid.IntRange(0, len(eigenKinds)-1).Draw(t, "kind"),
 		Reuse: rapid.IntRange(0, 3).Draw(t, "reuse") == 0,
 		AKind: rapid.IntRange(0, 15).Draw(t, "akind"),
@@ -262,6 +262,29 @@ func checkEigen(c eigenCase) *vk.Failure {
 			houseLeft(A, v)
 			houseRight(A, v)
 		}
+	case "rot-repeated":
+		// identical 2×2 rotation blocks: repeated complex pairs
+		A = newM(n, n)
+		th := 0.1 + 3*sm.Float()
+		for i := 0; i+1 < n; i += 2 {
+			A.d[i*n+i], A.d[i*n+i+1] = scale*math.Cos(th), -scale*math.Sin(th)
+			A.d[(i+1)*n+i], A.d[(i+1)*n+i+1] = scale*math.Sin(th), scale*math.Cos(th)
+		}
+		if n%2 == 1 {
+			A.d[n*n-1] = scale
+		}
+		if sm.Intn(2) == 0 {
+			v := gaussVec(n, sm)
+			houseLeft(A, v)
+			houseRight(A, v)
+		}
+	case "near-identity":
+		// identity plus rounding-level non-symmetric noise (what HOGSVD feeds to
+		// Eigen when all matrices have orthonormal columns)
+		A = eyeM(n)
+		for i := range A.d {
+			A.d[i] += float64(sm.Intn(5)-2) * eps
+		}
 	case "tri":
 		A = newM(n, n)
 		for i := 0; i < n; i++ {
@@ -297,7 +320,13 @@ func checkEigen(c eigenCase) *vk.Failure {
 	} else if e.Kind() != -1 {
 		return failf("kind-before-factorize", "Kind()=%d on a zero Eigen, documented -1", e.Kind())
 	}
-	if !e.Factorize(am, kind) {
+	var fok bool
+	if res := vk.Call(func() { fok = e.Factorize(am, kind) }); res.Outcome == vk.RuntimeFault {
+		return failf("factorize-runtime-fault", "Eigen.Factorize (n=%d class %s kind %d) ended in a runtime fault: %s", n, c.Class, kind, res.Text)
+	} else if res.Outcome != vk.Returned {
+		return failf("factorize-panic", "Eigen.Factorize (n=%d class %s): %s", n, c.Class, res.Text)
+	}
+	if !fok {
 		vk.Inconclusive("eigen-factorize-returned-false")
 		return nil
 	}
